@@ -371,11 +371,25 @@ pub fn run(ctx: &mut Ctx) {
     }
     ctx.extra.insert("excluded_by_construction".into(), json!({"cfg_disabled_members_of_mod_and_impl": dangling_open}));
     let cases = ctx.n(150_000, 3_000_000);
-    run_tapes_par(ctx, 18, cases, 300, |c, tape| one(c, tape, !dangling_open));
+    if run_tapes_par(ctx, 18, cases, 300, |c, tape| one(c, tape, !dangling_open)) && !dangling_open {
+        e2_leg(ctx);
+    }
 }
 
 pub fn replay(ctx: &mut Ctx, v: &Value) {
     use super::s;
+    if s(v, "engine") == "E2" {
+        let feature_unimock = v.get("feature_unimock").and_then(|b| b.as_bool()).unwrap_or(false);
+        let mut b = crate::e2::Batch::new("c18-replay", crate::e2::Opts { feature_unimock, members: 1, ..Default::default() });
+        b.add("c00000", s(v, "src"));
+        let out = b.build_and_run();
+        b.cleanup();
+        ctx.count_eval();
+        if !out.compile_failed.is_empty() || out.ran.get("c00000").map(|(st, _)| st != "ok").unwrap_or(true) {
+            ctx.violation("a program with cfg-disabled members does not compile / run", v);
+        }
+        return;
+    }
     let list = |k: &str| -> Vec<String> { v.get(k).and_then(|a| a.as_array()).map(|a| a.iter().filter_map(|x| x.as_str().map(String::from)).collect()).unwrap_or_default() };
     let mode: &'static str = match s(v, "mode").as_str() {
         "fn" => "fn",
@@ -390,4 +404,139 @@ pub fn replay(ctx: &mut Ctx, v: &Value) {
         Err(e) if e.starts_with("HARNESS") => crate::ev::inconclusive(&e),
         Err(e) => ctx.violation(&e, v),
     }
+}
+
+// ---------- E2 leg: cfg-disabled members really leave nothing dangling (compiled by rustc) ----------
+
+fn e2_case(t: &mut Tape, feature_unimock: bool) -> (String, String) {
+    // members: (name, enabled?, async?); disabled members mention a type that does not exist
+    let n = t.range(1, 4);
+    let mut members: Vec<(String, bool, bool)> = (0..n).map(|i| (format!("f{i}"), t.chance(1, 2), t.chance(1, 3))).collect();
+    if members.iter().all(|m| !m.1) {
+        members[0].1 = true;
+    }
+    if members.iter().all(|m| m.1) {
+        let k = members.len() - 1;
+        members[k].1 = false;
+    }
+    let cfg_off = |t: &mut Tape| DISABLED_CFG[t.choose(2)];
+    let cfg_on = |t: &mut Tape| if t.chance(1, 3) { ENABLED_CFG[t.choose(2)] } else { "" };
+    let mode = t.choose(4); // mod, impl static, impl dyn, trait
+    let mocks = feature_unimock && t.flip();
+    let mut src = String::from("#![allow(warnings)]\nuse crate::rt;\npub struct App;\n");
+    let mut run = String::from("pub fn run() -> Vec<String> {\n    let mut fails = vec![];\n    let app = ::entrait::Impl::new(App);\n");
+    let mut summary = String::new();
+    let fn_src = |name: &str, on: bool, is_async: bool, vis: &str, attr: &str, deps: &str| {
+        let q = if is_async { "async " } else { "" };
+        if on {
+            format!("    {attr} {vis}{q}fn {name}({deps}x: u64) -> u64 {{ x + 1 }}\n")
+        } else {
+            format!("    {attr} {vis}{q}fn {name}({deps}x: NoSuchType) -> NoSuchType {{ no_such_fn(x) }}\n")
+        }
+    };
+    let call = |name: &str, is_async: bool| if is_async { format!("rt::block_on(TheTrait::{name}(&app, 1))") } else { format!("TheTrait::{name}(&app, 1)") };
+    match mode {
+        0 => {
+            let attr = if mocks { "#[::entrait::entrait_export(pub TheTrait, mock_api = TheMock)]" } else { "#[::entrait::entrait(pub TheTrait)]" };
+            src.push_str(&format!("{attr}\npub mod m {{\n"));
+            for (name, on, a) in &members {
+                let c = if *on { cfg_on(t) } else { cfg_off(t) };
+                src.push_str(&fn_src(name, *on, *a, "pub ", c, "_deps: &impl ::core::any::Any, "));
+            }
+            src.push_str("}\n");
+            summary = format!("{attr} mod with members {:?}", members);
+        }
+        1 | 2 => {
+            let dynamic = mode == 2;
+            let any_async = members.iter().any(|m| m.2);
+            // dynamic dispatch of async methods needs async_trait: keep the dynamic variant synchronous
+            if dynamic && any_async {
+                for m in members.iter_mut() {
+                    m.2 = false;
+                }
+            }
+            let tattr = if dynamic { "#[::entrait::entrait(TheImpl, delegate_by = ref)]" } else { "#[::entrait::entrait(TheImpl, delegate_by = DelegateIt)]" };
+            src.push_str(&format!("{tattr}\npub trait TheTrait {{\n"));
+            let cfgs: Vec<&str> = members.iter().map(|(_, on, _)| if *on { cfg_on(t) } else { cfg_off(t) }).collect();
+            for ((name, on, a), c) in members.iter().zip(cfgs.iter()) {
+                let q = if *a { "async " } else { "" };
+                let ty = if *on { "u64" } else { "NoSuchType" };
+                src.push_str(&format!("    {c} {q}fn {name}(&self, x: {ty}) -> {ty};\n"));
+            }
+            src.push_str(&format!("}}\npub struct X;\n#[::entrait::entrait{}]\nimpl TheImpl for X {{\n", if dynamic { "(ref)" } else { "" }));
+            for ((name, on, a), c) in members.iter().zip(cfgs.iter()) {
+                src.push_str(&fn_src(name, *on, *a, "pub ", c, "_deps: &impl ::core::any::Any, "));
+            }
+            src.push_str("}\n");
+            if dynamic {
+                src.push_str("impl AsRef<dyn TheImpl<Self>> for App { fn as_ref(&self) -> &(dyn TheImpl<Self> + 'static) { &X } }\n");
+            } else {
+                src.push_str("impl DelegateIt<Self> for App { type Target = X; }\n");
+            }
+            summary = format!("{tattr} trait + #[entrait{}] impl block with members {:?}", if dynamic { "(ref)" } else { "" }, members);
+        }
+        _ => {
+            let attr = if mocks { "#[::entrait::entrait_export(mock_api = TheMock)]" } else { "#[::entrait::entrait]" };
+            src.push_str(&format!("{attr}\npub trait TheTrait {{\n"));
+            let cfgs: Vec<&str> = members.iter().map(|(_, on, _)| if *on { cfg_on(t) } else { cfg_off(t) }).collect();
+            for ((name, on, a), c) in members.iter().zip(cfgs.iter()) {
+                let q = if *a { "async " } else { "" };
+                let ty = if *on { "u64" } else { "NoSuchType" };
+                src.push_str(&format!("    {c} {q}fn {name}(&self, x: {ty}) -> {ty};\n"));
+            }
+            src.push_str("}\nimpl TheTrait for App {\n");
+            for ((name, on, a), c) in members.iter().zip(cfgs.iter()) {
+                src.push_str(&fn_src(name, *on, *a, "", c, "&self, "));
+            }
+            src.push_str("}\n");
+            summary = format!("{attr} trait with methods {:?}", members);
+        }
+    }
+    for (name, on, a) in &members {
+        if *on {
+            run.push_str(&format!("    rt::expect_eq(&mut fails, \"{name}\", &{}, &2u64);\n", call(name, *a)));
+        }
+    }
+    run.push_str("    fails\n}\n");
+    src.push_str(&run);
+    (src, summary)
+}
+
+pub fn e2_leg(ctx: &mut Ctx) -> bool {
+    use crate::e2::{Batch, Opts};
+    let n = ctx.n(150, 2000) as usize;
+    for feature_unimock in [false, true] {
+        let tapes = crate::drive::gen_tapes(ctx.seed, 1800 + feature_unimock as u64, n, 48);
+        let cases: Vec<(String, String)> = tapes.iter().map(|tp| e2_case(&mut Tape::new(tp), feature_unimock)).collect();
+        let mut batch = Batch::new(&format!("c18-e2-{}", if feature_unimock { "unimock" } else { "plain" }), Opts { feature_unimock, members: 16, ..Default::default() });
+        for (i, c) in cases.iter().enumerate() {
+            batch.add(&format!("c{i:05}"), c.0.clone());
+        }
+        let out = batch.build_and_run();
+        batch.cleanup();
+        super::common::crosscheck_records(ctx, &out.records);
+        if let Some((id, d)) = out.compile_failed.iter().next() {
+            let i: usize = id[1..].parse().unwrap_or(0);
+            ctx.count_eval();
+            ctx.violation(
+                &format!(
+                    "a program with cfg-disabled members does not compile (something generated was left dangling): {} -- {}",
+                    d.first().map(|x| format!("{} {}", x.code, x.message)).unwrap_or_default(),
+                    cases[i].1
+                ),
+                &json!({"engine": "E2", "feature_unimock": feature_unimock, "src": cases[i].0, "summary": cases[i].1}),
+            );
+            return false;
+        }
+        for (id, (status, msg)) in &out.ran {
+            let i: usize = id[1..].parse().unwrap_or(0);
+            ctx.count_eval();
+            if status != "ok" {
+                ctx.violation(&format!("enabled members misbehave next to cfg-disabled ones: {msg} -- {}", cases[i].1), &json!({"engine": "E2", "feature_unimock": feature_unimock, "src": cases[i].0}));
+                return false;
+            }
+            ctx.class("e2:cfg_disabled_members_compiled_and_run");
+        }
+    }
+    true
 }
